@@ -3,6 +3,7 @@ package checks
 import (
 	"encoding/json"
 	"fmt"
+	"regexp"
 
 	"github.com/getkin/kin-openapi/openapi3"
 
@@ -106,6 +107,7 @@ func runC01(c *core.Ctx) {
 		}
 		idx++
 	}
+	c01CustomCompiler(c)
 	if c.Shard == 0 {
 		c.CoverN("workload", "systematic_schemas", len(schemas))
 	}
@@ -301,3 +303,107 @@ func replayC01(c *core.Ctx, raw json.RawMessage) {
 	json.Unmarshal(w.Value, &v)
 	c01One(c, s, []any{v}, nil, true)
 }
+
+// c01CustomCompiler: validation with a caller-supplied regexp compiler (case-insensitive matching). The reference is
+// the plain evaluator on the same schema with every pattern P rewritten as (?i)P: the compiler must be honoured at every
+// depth, under every applicator.
+func c01CustomCompiler(c *core.Ctx) {
+	ci := func(expr string) (openapi3.RegexMatcher, error) { return regexp.Compile("(?i)" + expr) }
+	var rewrite func(v any) any
+	rewrite = func(v any) any {
+		switch t := v.(type) {
+		case map[string]any:
+			out := gen.S{}
+			for k, x := range t {
+				if p, ok := x.(string); ok && k == "pattern" {
+					out[k] = "(?i)" + p
+				} else {
+					out[k] = rewrite(x)
+				}
+			}
+			return out
+		case []any:
+			out := make([]any, len(t))
+			for i, x := range t {
+				out[i] = rewrite(x)
+			}
+			return out
+		}
+		return v
+	}
+	strs := []any{"a", "A", "ab", "AB", "aB", "b", "B", "c", "C", "", "abc", "ABAB", "abab", "Ab", "7", "aa", "AA"}
+	var values []any
+	for _, s := range strs {
+		values = append(values, s, gen.Arr(s), gen.S{"a": s}, gen.S{"a": s, "b": "B"}, gen.S{"zz": s})
+	}
+	other := gen.S{"type": "string"}
+	idx := 0
+	for _, p := range []string{"a", "^a", "a$", "^a$", "^[a-z]+$", "b|c", "^(ab)*$", "^a?b$", "^[A-Z]$"} {
+		base := gen.S{"pattern": p}
+		var schemas []gen.S
+		schemas = append(schemas, base)
+		for k := 0; k < gen.NWraps; k++ {
+			w := gen.Wrap(k, base, other)
+			schemas = append(schemas, w)
+			for k2 := 0; k2 < gen.NWraps; k2 += 5 {
+				schemas = append(schemas, gen.Wrap(k2, w, other))
+			}
+		}
+		for _, s := range schemas {
+			mine := c.Mine(idx)
+			idx++
+			if !mine {
+				continue
+			}
+			sc, err := kinSchema(s)
+			if err != nil {
+				continue
+			}
+			refSchema := rewrite(s).(gen.S)
+			sCanon := gen.Canon(s)
+			c.BeginLazy(func() string { return "custom regexp compiler, schema=" + sCanon })
+			for _, v := range values {
+				ref := refeval.Eval(refSchema, v, refeval.Opts{})
+				if ref.V == refeval.Contested {
+					continue
+				}
+				for _, mode := range []string{"default", "multi", "failfast"} {
+					opts := []openapi3.SchemaValidationOption{openapi3.SetSchemaRegexCompiler(ci)}
+					switch mode {
+					case "multi":
+						opts = append(opts, openapi3.MultiErrors())
+					case "failfast":
+						opts = append(opts, openapi3.FailFast())
+					}
+					var verr error
+					c.Eval()
+					kv := gen.CloneValue(v)
+					if pi := core.Guard(func() { verr = sc.VisitJSON(kv, opts...) }); pi != nil {
+						c01Report(c, s, v, "custom-compiler/"+mode, "panic", pi)
+						continue
+					}
+					c.Cover("custom_compiler", mode+"/"+ref.V.String())
+					if (verr == nil) != (ref.V == refeval.Accept) {
+						kind := "false_accept"
+						if ref.V == refeval.Accept {
+							kind = "false_reject"
+						}
+						c.Violate(map[string]string{"kind": kind, "keys": "pattern(custom compiler)", "mode": mode, "wrapped_by": firstKey(s)}, c01Witness{Schema: mustRaw(s), Value: mustRaw(v), Rep: "custom case-insensitive compiler, " + mode},
+							fmt.Sprintf("schema %s with SetSchemaRegexCompiler(case-insensitive), value %s, mode %s: reference (patterns read as (?i)P) %s, library error %v", sCanon, gen.Canon(v), mode, ref.V, verr))
+					}
+				}
+				c.Distinct("custom-compiler\x00" + sCanon + "\x00" + gen.Canon(v))
+			}
+		}
+	}
+}
+
+func firstKey(s gen.S) string {
+	ks := sortedKeys(s)
+	if len(ks) == 0 {
+		return ""
+	}
+	return ks[0]
+}
+
+func mustRaw(v any) json.RawMessage { b, _ := json.Marshal(v); return b }
